@@ -104,6 +104,7 @@ func loadHistory(db *zenodb.DB, c *jDBCase, e *Env) (int, error) {
 }
 
 func runSnapCase(e *Env, c *jSnapCase) error {
+	e.Running(c)
 	dir := tempDir()
 	defer rmDir(dir)
 	t := &c.Table
@@ -261,6 +262,7 @@ func genConcCase(e *Env) *jConcCase {
 }
 
 func runConcCase(e *Env, c *jConcCase) error {
+	e.Running(c)
 	dir := tempDir()
 	defer rmDir(dir)
 	t := &c.Table
